@@ -200,8 +200,20 @@ class Ref:
         self.trace = []
         self.globals = {}
         self.steps = 0
+        def unroll(forms):
+            # the compiler unrolls top-level do forms: every child is compiled and run as a top-level form of its own, in
+            # expression position (matters only to the statement-position rule of the hoisting model)
+            for f in forms:
+                if isinstance(f, tuple) and f and f[0] == "do":
+                    yield from unroll(f[1])
+                else:
+                    yield f
+
         try:
-            v = self.ev(prog, {"o": Cell(HarnessObj())}, Activation())
+            env, act = {"o": Cell(HarnessObj())}, Activation()
+            v = None
+            for f in unroll([prog]):
+                v = self.ev(f, env, act)
             return ("val", self.norm(v)), list(self.trace)
         except Throw as e:
             return ("exc", e.kind), list(self.trace)
